@@ -539,10 +539,10 @@ func runBehaviour(t *testing.T, b behaviour, tr *vtrace.Tracer, seed int64, tmp 
 		case "Corrupt":
 			d, kind := str(h, "d"), str(h, "kind")
 			p := filepath.Join(dir, realDomain(d))
-			old, err := os.ReadFile(p)
-			if err != nil {
-				t.Fatalf("behaviour %d: Corrupt without a cache file: %v", b.ID, err)
-			}
+			// (if the code under test did not write the file the model expects, the damaged file is created:
+			// the snapshot of this event then tells the difference)
+			old, _ := os.ReadFile(p)
+			os.MkdirAll(dir, 0o777)
 			var data []byte
 			if kind == "nullpol" {
 				alts := []string{"{}", "null", `{"ID":"i1","FetchTime":"2000-01-01T00:00:00Z"}`, `{"ID":"i1","FetchTime":"2000-01-01T00:00:00Z","Policy":null}`}
